@@ -98,8 +98,37 @@ def set_existing_field(cls, fieldname, vlevel, connected, set_reference, value_i
     return True
 
 
-def add_line_unknown_version(rt, vlevel, VN, header_has_VN, segment_version):
+def _unknown_version_failure(rt, vlevel, VN, header_has_VN, parse_ok):
+    """a line of record type rt that is refused while parsing (parse_ok False) or, for H, while merging: the Gfa must stay unchanged"""
+    bad = {"H": "H\txx:i:notanumber", "S": "S\tA", "E": "E\t*\tA+\tA-\tx\t2\t0\t2\t*", "F": "F\tA\tx+\tq\t2\t0\t2\t*", "G": "G\tg1\tA+\tB-\tx\t*",
+           "U": "U\tu\t", "O": "O\to\tA"}
+    g = gfapy.Gfa(vlevel=max(vlevel, 1))
+    g.add_line("H\tTS:i:1")
+    if parse_ok:
+        if rt != "H":
+            return True
+        text = "H\tab:Z:x%s\tTS:i:2" % ("\tVN:Z:%s" % VN if header_has_VN else "")
+    else:
+        if rt not in bad:
+            return True
+        text = bad[rt]
+    def obs():
+        return (str(g), g.version, g._version_guess, len(g._line_queue), g.n_input_header_lines if hasattr(g, "n_input_header_lines") else None, sorted(g.header.tagnames))
+    before = obs()
+    try:
+        g.add_line(text)
+    except gfapy.Error:
+        after = obs()
+        if after != before:
+            return "rejected line %r changed the Gfa: %r -> %r" % (text, before, after)
+        return True
+    return True          # accepted (e.g. not validated at this level): nothing to compare
+
+
+def add_line_unknown_version(rt, vlevel, VN, header_has_VN, segment_version, line_can_be_parsed=True, header_can_be_merged=True):
     """replay of a counter-model of Creators.__add_line_unknown_version on a real Gfa"""
+    if not line_can_be_parsed or not header_can_be_merged:
+        return _unknown_version_failure(rt, vlevel, VN, header_has_VN, line_can_be_parsed)
     texts = {"#": "# c", "H": "H\tVN:Z:%s" % VN if header_has_VN else "H\txx:i:1",
              "S": "S\tA\t*" if segment_version == "gfa1" else "S\tA\t8\t*", "E": "E\t*\tA+\tA-\t0\t2\t0\t2\t*", "F": "F\tA\tx+\t0\t2\t0\t2\t*",
              "G": "G\tg1\tA+\tB-\t10\t*", "U": "U\tu\tA", "O": "O\to\tA+", "L": "L\tA\t+\tA\t-\t*", "C": "C\tA\t+\tB\t+\t0\t*", "P": "P\tp\tA+\t*", "X": "X\tq"}
